@@ -207,6 +207,17 @@ ActualDelta(backend, cltv, g) == IF backend = "CLN" THEN g.delta ELSE cltv + Blo
 \* confirm before the taker takes its start height (-2)
 BtcConfOffs == (-2 .. 6) \cup {500}
 
+\* The Action's retry loop: the node fails the first `fails` attempts while the
+\* tip moves (attempt i at heights[i]); the window is re-checked per attempt,
+\* so attempts are made exactly at the longest prefix of heights inside it
+\* @type: (Str, Int, Bool, Int, Seq(Int), Int) => Int;
+RetryCount(chain, ver, startSet, start, heights, fails) ==
+    LET m == IF fails + 1 < Len(heights) THEN fails + 1 ELSE Len(heights)
+    IN Cardinality({i \in 1..m : \A j \in 1..i : PayOK(chain, ver, startSet, start, heights[j])})
+\* @type: (Str, Int, Bool, Int, Seq(Int), Int) => Seq(Int);
+RetryTips(chain, ver, startSet, start, heights, fails) ==
+    SubSeq(heights, 1, RetryCount(chain, ver, startSet, start, heights, fails))
+
 (* ---- C04 / C05 margins ---- *)
 \* C04: Liquid v7.  A payment made at Liquid tip `tip` with a route delta of
 \* at most 32 Bitcoin blocks resolves within 10021 Liquid blocks; the opening
